@@ -2,6 +2,7 @@
 from __future__ import annotations
 
 import os
+import re
 import sys
 import types
 import warnings
@@ -254,8 +255,27 @@ def k9_cases(ctx: vlib.Ctx, n: int):
 # ---------------------------------------------------------------------------
 
 class MT:
-    def __init__(self, py, coq, default=None, hashable=False, classes=()):
+    def __init__(self, py, coq, default=None, hashable=False, classes=(), dom=None):
         self.py, self.coq, self.default, self.hashable, self.classes = py, coq, default, hashable, classes
+        # inside the domain of the default-rendering clause (SchemaDefault.sty_of): decided structurally by the constructors below
+        self.dom = (not re.search("TClass|TNamed|TTyped|TOpaque|TUnion", coq)) if dom is None else dom
+
+
+def pv_of_default(py: str, jsterm: str, coqtype: str) -> str:
+    """the default VALUE as a Core.pv term (the model renders it): leaves carry their canonical text, enum members their name"""
+    if jsterm == "JNull":
+        return "Core.VNone"
+    if coqtype.startswith("TAnn ["):
+        coqtype = coqtype[coqtype.index("] (") + 3:-1]
+    if coqtype.startswith("TLeaf"):
+        return 'Core.VLeaf "leaf" ' + jsterm[len("JStr "):]
+    if coqtype.startswith("TEnum false") and py != "None":
+        return f'Core.VEnum "enum" "{py.split(".")[-1]}"'
+    t = jsterm.replace("JNull", "Core.VNone").replace("JInt ", "Core.VInt ").replace("JStr ", "Core.VStr ").replace("JBool ", "Core.VBool ")
+    return t
+
+
+ENUM_TAB = '[("A", Core.VStr "a"); ("B", Core.VInt 2); ("X", Core.VInt 1); ("Y", Core.VInt 2)]'
 
 
 def m_scalar(r):
@@ -300,6 +320,7 @@ M_PRELUDE = [
     "import collections, datetime, decimal, enum, fractions, ipaddress, pathlib, uuid, zoneinfo",
     "from typing_extensions import TypedDict, Required, NotRequired, Annotated",
     "from mashumaro.types import Alias",
+    "from mashumaro.jsonschema.annotations import Maximum, Minimum, ExclusiveMaximum, ExclusiveMinimum, MultipleOf, MinLength, MaxLength, Pattern, MinItems, MaxItems, UniqueItems, MinProperties, MaxProperties",
     "from mashumaro import pass_through",
     "from mashumaro.types import SerializationStrategy",
     "from mashumaro.dialect import Dialect",
@@ -348,13 +369,16 @@ def m_named(r, asd) -> MT:
     return MT(n, f"TNamed {b} {names} {ts.replace('{asd}', b)} {ds}")
 
 
+_CUR_OVER: set = set()
+
+
 def m_type(r, depth, avail, allow_any=True, asd=False) -> MT:
     x = r.random()
     if x < 0.12:
         return m_named(r, asd)
     if x < 0.2:
         py, coq, hashable = r.choice(M_WRAPPED)
-        return MT(py, coq, None, hashable)
+        return MT(py, coq, None, hashable, dom=True)
     if depth <= 0 or x < 0.3:
         if avail and r.random() < 0.45:
             c = r.choice(avail)
@@ -363,10 +387,59 @@ def m_type(r, depth, avail, allow_any=True, asd=False) -> MT:
             t = m_scalar(r)
             if allow_any or t.py != "Any":
                 return t
-    k = r.choice(["List", "Set", "Dict", "Tuple", "Union", "Optional", "List", "Optional", "Tuple0"])
+    k = r.choice(["List", "Set", "Dict", "Tuple", "Union", "Optional", "List", "Optional", "Tuple0", "Map", "Map", "Counter", "ChainMap", "TupleVar",
+                  "Seq", "FrozenSet", "Ann", "Ann"])
+    # (fcaa28c) a strategy registered under an ORIGIN class applies to every parametrisation of it: the model keys TList by
+    # "list" and TDict / TMap by "dict", so in a class that registers list / dict these schemas are spelled List[..] / Dict[..]
+    # only (Sequence, Deque, Tuple[T, ...], Mapping, OrderedDict, Counter, ChainMap have other origins)
+    if "list" in _CUR_OVER and k in ("TupleVar", "Seq", "ChainMap"):
+        k = "List"
+    if "dict" in _CUR_OVER and k in ("Counter", "ChainMap"):
+        k = "Map"
+    if k in ("Map", "Counter", "ChainMap"):
+        kt = m_scalar(r)
+        while not kt.hashable or kt.py == "Any":
+            kt = m_scalar(r)
+        if k == "Counter" and "int" not in _CUR_OVER:
+            # (Counter emits additionalProperties through get_schema, not _get_schema_or_none: under an int override that yields Any
+            #  it keeps "additionalProperties": {} -- that corner is not in the model, so no Counter in a class that overrides int)
+            return MT(f"Counter[{kt.py}]", f"TMap ({kt.coq}) TInt", None, False, (), dom=kt.dom)
+        a = m_type(r, depth - 1, avail, asd=asd)
+        name = r.choice(["Dict", "Mapping", "OrderedDict", "DefaultDict", "MutableMapping"]) if "dict" not in _CUR_OVER else "Dict"
+        if k == "ChainMap":
+            return MT(f"ChainMap[{kt.py}, {a.py}]", f"TList (TMap ({kt.coq}) ({a.coq}))", None, False, a.classes, dom=kt.dom and a.dom)
+        return MT(f"{name}[{kt.py}, {a.py}]", f"TMap ({kt.coq}) ({a.coq})", None, False, a.classes, dom=kt.dom and a.dom)
+    if k == "Ann":
+        # Annotated constraints: any mix; those that do not fit the kind of the base type are ignored by the implementation
+        base = r.choice([m_scalar(r), m_scalar(r), m_type(r, depth - 1, avail, asd=asd), MT("pathlib.PurePosixPath", 'TLeaf "string" (Some "path") None', None, True)])
+        if base.py.startswith(("Annotated", "Final", "Optional", "Union")) or base.py in ("Any",):
+            base = m_scalar(r)
+            while base.py == "Any":
+                base = m_scalar(r)
+        pool = [("Maximum({z})", "ANum AMaximum {z}"), ("Minimum({z})", "ANum AMinimum {z}"), ("ExclusiveMaximum({z})", "ANum AExMax {z}"),
+                ("ExclusiveMinimum({z})", "ANum AExMin {z}"), ("MultipleOf({p})", "ANum AMultipleOf {p}"), ("MinLength({n})", "ANum AMinLength {n}"),
+                ("MaxLength({n})", "ANum AMaxLength {n}"), ("MinItems({n})", "ANum AMinItems {n}"), ("MaxItems({n})", "ANum AMaxItems {n}"),
+                ("MinProperties({n})", "ANum AMinProps {n}"), ("MaxProperties({n})", "ANum AMaxProps {n}"),
+                ("Pattern('^a*$')", 'APattern "^a*$"'), ("UniqueItems(True)", "AUnique true"), ("UniqueItems(False)", "AUnique false")]
+        chosen = [r.choice(pool) for _ in range(r.randrange(1, 5))]
+        py, cq = [], []
+        for a, c in chosen:
+            z = r.choice([0, 1, -3, 10, 2**40]); n = r.choice([0, 1, 5]); pp = r.choice([1, 2, 10])
+            py.append(a.format(z=z, n=n, p=pp))
+            cq.append(c.format(z=f"({z})", n=str(n), p=str(pp)))
+        return MT(f"Annotated[{base.py}, {', '.join(py)}]", f"TAnn [{'; '.join(cq)}] ({base.coq})", base.default, base.hashable, base.classes, dom=base.dom)
+    if k in ("TupleVar", "Seq"):
+        a = m_type(r, depth - 1, avail, asd=asd)
+        py = f"Tuple[{a.py}, ...]" if k == "TupleVar" else r.choice(["Sequence", "Deque", "MutableSequence"]) + f"[{a.py}]"
+        return MT(py, f"TList ({a.coq})", None, False, a.classes, dom=a.dom)
+    if k == "FrozenSet":
+        a = m_scalar(r)
+        while not a.hashable:
+            a = m_scalar(r)
+        return MT(r.choice(["FrozenSet", "AbstractSet"]) + f"[{a.py}]", f"TSet ({a.coq})", dom=a.dom)
     if k == "List":
         a = m_type(r, depth - 1, avail, asd=asd)
-        return MT(f"List[{a.py}]", f"TList ({a.coq})", None, False, a.classes)
+        return MT(f"List[{a.py}]", f"TList ({a.coq})", None, False, a.classes, dom=a.dom)
     if k == "Set":
         a = m_scalar(r)
         while not a.hashable:
@@ -374,18 +447,23 @@ def m_type(r, depth, avail, allow_any=True, asd=False) -> MT:
         return MT(f"Set[{a.py}]", f"TSet ({a.coq})")
     if k == "Dict":
         a = m_type(r, depth - 1, avail, asd=asd)
-        return MT(f"Dict[str, {a.py}]", f"TDict ({a.coq})", None, False, a.classes)
+        return MT(f"Dict[str, {a.py}]", f"TDict ({a.coq})", None, False, a.classes, dom=a.dom)
     if k == "Tuple":
         parts = [m_type(r, depth - 1, avail, asd=asd) for _ in range(r.randrange(1, 4))]
-        return MT("Tuple[" + ", ".join(p.py for p in parts) + "]", "TTuple [" + "; ".join(p.coq for p in parts) + "]", None, False,
-                  sum((p.classes for p in parts), ()))
+        dflt = None
+        if all(p.default and p.dom for p in parts):       # a tuple default built from the parts' defaults
+            ch = [r.choice(p.default) for p in parts]
+            dflt = [("(" + "".join(c[0] + ", " for c in ch) + ")",
+                     "TUPLE:" + "; ".join(pv_of_default(c[0], c[1], p.coq) for c, p in zip(ch, parts)))]
+        return MT("Tuple[" + ", ".join(p.py for p in parts) + "]", "TTuple [" + "; ".join(p.coq for p in parts) + "]", dflt, False,
+                  sum((p.classes for p in parts), ()), dom=all(p.dom for p in parts))
     if k == "Tuple0":
         return MT("Tuple[()]", "TTuple []")
     if k == "Optional":
         a = m_type(r, depth - 1, avail, allow_any=False, asd=asd)
         if a.py.startswith(("Optional", "Union")):
             return a
-        return MT(f"Optional[{a.py}]", f"TUnion [{a.coq}; TNone]", [("None", "JNull")], False, a.classes)
+        return MT(f"Optional[{a.py}]", f"TUnion [{a.coq}; TNone]", [("None", "JNull")], False, a.classes, dom=a.dom)
     parts, seen = [], set()
     for _ in range(r.randrange(2, 4)):
         a = m_type(r, depth - 1, avail, allow_any=False, asd=asd)
@@ -405,18 +483,19 @@ def m_type(r, depth, avail, allow_any=True, asd=False) -> MT:
 # replacement types of overrides: python spelling of the serialize callable, Coq ov term, key of the replacement type
 OV_RET = [("ser_str", "ORet (Some TStr)", "str"), ("ser_int", "ORet (Some TInt)", "int"), ("ser_bool", "ORet (Some TBool)", "bool"),
           ("ser_float", "ORet (Some TFloat)", "float"), ("ser_date", 'ORet (Some (TLeaf "string" (Some "date") None))', None)]
-PYKEY = {"int": "int", "float": "float", "bool": "bool", "Pt": "Pt"}
+PYKEY = {"int": "int", "float": "float", "bool": "bool", "Pt": "Pt", "list": "list", "dict": "dict"}
 COQKEY = {"int": "TInt", "float": "TFloat", "bool": "TBool", "Pt": 'TOpaque "Pt"'}
 
 
 def keys_of(coq_term: str) -> set:
     ks = {k for k, c in COQKEY.items() if c in coq_term} | ({"str"} if "TStr" in coq_term else set())
+    ks |= ({"list"} if "TList" in coq_term else set()) | ({"dict"} if ("TDict" in coq_term or "TMap" in coq_term) else set())
     if "TEnum true" in coq_term:      # the serializer applies a strategy to a Literal member by the member's own type
         ks |= ({"int"} if "JInt" in coq_term else set()) | ({"bool"} if "JBool" in coq_term else set())
     return ks
 
 
-def m_tables(r):
+def m_tables(r, origin_ok=True):
     """Config.dialect / Config.serialization_strategy of one class: (python lines for the dialect class body, python dict text for
     Config, Coq dial table, Coq conf table, overridden keys, keys with a serializing override).  "str" is never overridden (it is
     the implicit key type of Dict[str, .]); a replacement type never carries an overridden key (no chains: domain of the clause)."""
@@ -439,6 +518,14 @@ def m_tables(r):
                 tab[k] = ('{"deserialize": ser_any}', "ODeser")
             else:
                 tab[k] = ('{"serialize": ser_any}', "ORet None")
+    # registrations under the ORIGIN class of a parametrised type: since /repo fcaa28c get_overridden_serialization_method looks a
+    # strategy up under instance.type and then instance.origin_type (as the serializer does), so `list: ...` overrides every
+    # List[..] position of the class; the model: okey / table_ov
+    O = r.sample(["list", "dict"], r.choice([0, 0, 1, 2])) if origin_ok else []
+    for k in O:
+        for tab in r.sample([dial, conf], r.choice([1, 1, 2])):
+            tab[k] = r.choice([('{"serialize": ser_str, "deserialize": ser_any}', "ORet (Some TStr)"), ("pass_through", "OPass"),
+                               ('{"deserialize": ser_any}', "ODeser"), ('{"serialize": ser_any}', "ORet None")])
     # the winner per key: dialect first, then Config; a table entry without "serialize" is skipped
     for k in K:
         for tab in (dial, conf):
@@ -446,7 +533,7 @@ def m_tables(r):
                 if tab[k][1] != "OPass":
                     serializing.add(k)
                 break
-    return dial, conf, set(K), serializing
+    return dial, conf, set(K) | set(O), serializing
 
 
 def ob(b):
@@ -460,6 +547,7 @@ def m_family(r):
     lines = ["from dataclasses import dataclass, field", "from typing import *", "from mashumaro import field_options",
              "from mashumaro.config import BaseConfig"] + M_PRELUDE
     coq_classes = []
+    dvals = []
     refs = {}
     tainted = set()
     for i, nm in enumerate(names):
@@ -470,8 +558,10 @@ def m_family(r):
         refs[nm] = set()
         used_alias = set()
         cfg_aliases = {}
-        tabs = m_tables(r)
+        tabs = m_tables(r, origin_ok=not cyclic)
         over = tabs[2] if tabs else set()
+        _CUR_OVER.clear()
+        _CUR_OVER.update(over)
         pt_ok = bool(tabs) and "Pt" in tabs[3]
         ntd = r.random() < 0.3       # Config.namedtuple_as_dict of the owner decides the form of every NamedTuple below it
         for j in range(nf):
@@ -584,6 +674,13 @@ def m_family(r):
                 body.append(f"    {fname}: {tpy}")
             oq = lambda v: "None" if v is None else f"(Some {coq_str(v)})"
             rdef = "RNone" if not has_default else (f"(RDefault ({jd}))" if jd is not None else "RFactory")
+            if has_default and jd is not None and t.dom:
+                # inside the default-rendering clause: the model gets the VALUE and renders it itself
+                pvt = ("Core.VTuple [" + jd[len("TUPLE:"):] + "]") if jd.startswith("TUPLE:") else pv_of_default(pyd, jd, t.coq)
+                dvals.append(f"({coq_str(nm)}, ({coq_str(fname)}, {pvt}))")
+                rdef = "RFactory"
+            elif jd is not None and jd.startswith("TUPLE:"):
+                raise AssertionError("tuple default outside the domain")
             cflds.append(f"mkrfld {coq_str(fname)} {oq(meta_alias)} {oq(ann_alias)} ({t.coq}) {'true' if is_final else 'false'} {'true' if init else 'false'} {rdef} {oq(descr)} "
                          + (f"(Some ({f_ser[1]}))" if f_ser else "None") + " " + (f"(Some ({f_strat[1]}))" if f_strat else "None"))
         cfg = [f"        {o} = True" for o in ("omit_default", "serialize_by_alias") if r.random() < 0.3]
@@ -643,7 +740,7 @@ def m_family(r):
             color[c] = 2
             return False
         return any(color.get(c, 0) == 0 and dfs(c) for c in sorted(seen))
-    return "\n".join(lines) + "\n", "[" + "; ".join(coq_classes) + "]", names, reach_cyclic
+    return "\n".join(lines) + "\n", "[" + "; ".join(coq_classes) + "], (" + ENUM_TAB + ", [" + "; ".join(dvals) + "])", names, reach_cyclic
 
 
 def m_cases(ctx: vlib.Ctx, n: int):
@@ -668,6 +765,7 @@ def m_cases(ctx: vlib.Ctx, n: int):
             pctx = (r.choice(["DRAFT_2020_12", "OPEN_API_3_1"]), r.choice([None, True, False, True]),
                     r.choice([None, "#/q", "#/q/", "#/components/responses", "x"]))
         roots = []
+        _CUR_OVER.clear()
         for _ in range(r.randrange(2, 5) if builder else 1):
             t = m_type(r, r.choice([0, 0, 1, 2]), names) if r.random() < 0.35 else None
             if t is None or not t.classes:
@@ -727,7 +825,7 @@ def m_cases(ctx: vlib.Ctx, n: int):
 
 
 def coq_part(ctx: vlib.Ctx):
-    br = ctx.theorems("props/C20_schema.vo", THEOREMS + RT_THEOREMS + ["C20_override_noop", "C20_override_covered"], kernels=["K9"])
+    br = ctx.theorems("props/C20_schema.vo", THEOREMS + RT_THEOREMS + ["C20_override_noop", "C20_override_covered", "C20_override_origin_key", "C20_default_value_is_ref_enc", "C20_default_prerendered", "C20_default_scalars"], kernels=["K9"])
     if br.ok and not ctx.quick():
         rc, out, _ = vlib.run(["timeout", "900", "coqchk", "-silent", "-o"] + vlib.COQ_FLAGS[:9] + ["VerifProps.C20_schema"],
                               cwd=vlib.COQ, timeout=930)
